@@ -47,6 +47,8 @@ def gen_law(eng, rng, tv):
             a[3] += 1
         op["merge"] = rng.chance(0.25, "merge")
         op["del"] = rng.chance(0.7, "del")
+        # del_span takes the anchor cell or an area ("the upper left cell is used"): exactly the span, less, more
+        op["del_form"] = rng.choice(["cell", "cell", "exact", "smaller", "larger"], "delform")
     elif law == "csv":
         op["target"] = rng.choice(["none", "path", "stringio"], "csvtarget")
         op["dialect"] = rng.choice(["excel", "excel", "unix"], "dialect")
@@ -316,7 +318,14 @@ def run_law(eng, op, tv):
             return raised(e, "span-read-raises")
         if op.get("del") and not merge:
             try:
-                ret2 = t.del_span(ts.coord_of({"x": x, "y": y}))
+                form = op.get("del_form", "cell")
+                if form == "cell":
+                    darg = ts.coord_of({"x": x, "y": y})
+                else:
+                    dz, dt_ = {"exact": (z, tt), "smaller": (x, y), "larger": (z + 2, tt + 1)}[form]
+                    darg = ts.area_of({"a": [x, y, dz, dt_], "form": op["area"].get("form")})
+                    feats = feats + ["del_span_area_" + form]
+                ret2 = t.del_span(darg)
             except Exception as e:
                 return raised(e, "del_span-raises")
             if ret2 is not True:
